@@ -1682,6 +1682,9 @@ class Ev:
                 sub.cells = {kk[1:]: c for kk, c in v.cells.items() if kk[0] == i}
                 out.append(sub)
             return out
+        if (is_sym(v) and v.is_number) or isinstance(v, (int, float)) and not isinstance(v, bool):
+            # a plain number (also a 0-d array) cannot be iterated or unpacked: TypeError at run time
+            raise RaisedV("TypeError", f"{mod.rel}:{getattr(n, 'lineno', 0)}" if mod is not None and n is not None else "")
         raise self.err(f"iteration over a non-constant collection ({type(v).__name__})", n, mod)
 
     def comp(self, n, env, mod, elt_fn):
@@ -1702,12 +1705,13 @@ class Ev:
             if getattr(itv, "elementwise_seq", False) or getattr(itv, "elementwise", False):
                 flags.append(True)
             for item in self.iterate(itv, g.iter, mod):
-                e2 = dict(env)
-                self.assign(g.target, item, e2, mod)
-                if all(self.truth(self.eval(c, e2, mod), c, mod) for c in g.ifs):
-                    rec(gens[1:], e2)
+                # ONE scope for the whole comprehension, as in Python: its loop variables are rebound in place, so a lambda made in the element expression
+                # sees the value a variable has when the lambda is CALLED (the last one, once the comprehension is finished), not the one it had when it was made
+                self.assign(g.target, item, env, mod)
+                if all(self.truth(self.eval(c, env, mod), c, mod) for c in g.ifs):
+                    rec(gens[1:], env)
 
-        rec(n.generators, env)
+        rec(n.generators, dict(env))
         self._comp_flags = flags
         return out
 
